@@ -125,7 +125,7 @@ def _build_tls_capture(sc):
         i = 1
         while i < len(pk) - 1:
             a, b = me[i], me[i + 1]
-            if a is not None and b is not None and a.conn == b.conn and a.d != b.d and not a.dup and not b.dup and rng.random() < 0.5:
+            if a is not None and b is not None and a.conn == b.conn and a.d != b.d and not a.dup and not b.dup and rng.random() < sc.get("duplex_p", 0.5):
                 ca = conns[a.conn]
                 prev = me[i - 1]
                 same_rec = prev is not None and prev.conn == a.conn and prev.d == a.d and set(prev.recs) & set(a.recs)
